@@ -822,6 +822,10 @@ impl Session {
             for g in &got {
                 if !want.contains(g) {
                     out.push(Mismatch { prop: "C09", step, what: format!("unexpected delivery {g}") });
+                    let t = g["o"].as_u64().and_then(|o| e["touched"].get(o as usize - 1)).and_then(|b| b.as_bool()).unwrap_or(false);
+                    if t {
+                        out.push(Mismatch { prop: "C10", step, what: format!("delivery {g} caused by a lifecycle call on another observer/subscription of the same node") });
+                    }
                 }
                 if got.iter().filter(|x| *x == g).count() > 1 {
                     out.push(Mismatch { prop: "C09", step, what: format!("delivered twice {g}") });
@@ -829,9 +833,15 @@ impl Session {
             }
             // what must have been delivered (subscriptions still live after the handlers ran)
             let must = e["dlvmin"].as_array().unwrap_or(want);
+            let touched = |d: &J| {
+                d["o"].as_u64().and_then(|o| e["touched"].get(o as usize - 1)).and_then(|b| b.as_bool()).unwrap_or(false)
+            };
             for w in must {
                 if !got.contains(w) {
                     out.push(Mismatch { prop: "C09", step, what: format!("missing delivery {w}") });
+                    if touched(w) {
+                        out.push(Mismatch { prop: "C10", step, what: format!("delivery {w} lost after a lifecycle call on another observer/subscription of the same node") });
+                    }
                 }
             }
             for (o, tk, k, v, rd) in t.log.dlv.iter() {
